@@ -38,7 +38,8 @@ RULE = ("lludp hook: all pairs (quick) / triples (thorough) of 16 behaviours {re
         "message that must still get through all hooks; + every ownership-operation sequence of length <= 4 (quick) / 6 "
         "(thorough) on a message. distinct_nontrivial = distinct (hook point, behaviour tuple, direction, reliability) scenarios"
         ". Round-5 additions: an addon loaded from a script file that hot-reloads a helper module, next to a healthy addon object; while traffic flows the files go bad (13 faults: dependency deleted / its directory replaced by a file / symlink loop / syntax error / raises on import; script deleted / directory gone / syntax error / raises on import / hook now raises / unload raises / init raises) and then change again (thorough: all 144 ordered pairs incl. the author repairing the script); the reload check runs before every message; every message must reach the healthy addon, the logger and the wire exactly once"
-        ". Rounds 6-7: the script addon schedules a task that outlives it; after the faults, the avatar's arrival message (which kills region-scoped tasks) must still be delivered; datagrams whose body is cut short pass hooks that look inside and fail (deferred parsing): next addon still called, datagram forwarded once as it came")
+        ". Rounds 6-7: the script addon schedules a task that outlives it; after the faults, the avatar's arrival message (which kills region-scoped tasks) must still be delivered; datagrams whose body is cut short pass hooks that look inside and fail (deferred parsing): next addon still called, datagram forwarded once as it came"
+        ". Round 8: several coroutine subscribers next to plain ones on one message - each called once with its own arguments")
 ASSUMPTIONS = [
     "claims = truthy return, take(), explicit drop, the proxy's command channel; everything else must be forwarded exactly once",
     "a deep copy an addon sends itself is a different message (marked in its payload) and is not counted",
